@@ -102,6 +102,30 @@ def c14_b(ctx: Ctx):
     cfg = ctx.cfg(fi)
     out = []
     loops = [n for n in cfg.stmt_nodes() if isinstance(n.ast, ast.For) and "src" in canon(n.ast.iter)]
+    # positive pattern: the changes are collected into a mapping whose entries for nested documents come from the recursion, and that mapping is applied
+    # with a (shallow) update(): an existing nested mapping of the destination is then *replaced* by the collected sub-mapping, its other keys are lost
+    bulk = []
+    cls_funcs = [g for g in ctx.prog.funcs.values() if g.cls is not None and g.cls.qual == "signac.sync:DocSync.ByKey"]
+    for g in cls_funcs:
+        for c in body_nodes(g):
+            if isinstance(c, ast.Call) and isinstance(c.func, ast.Attribute) and c.func.attr == "update" and isinstance(c.func.value, ast.Name) and c.func.value.id in g.params \
+                    and c.args and isinstance(c.args[0], ast.Name):
+                producers = [d for d in common.reaching_defs(ctx, g, c.args[0].id, c) if isinstance(d, ast.Call)]
+                rec = []
+                for d in producers:
+                    for t in common.targets_of_funcs(ctx, g, d):
+                        if t.cls is not None and t.cls.qual == "signac.sync:DocSync.ByKey":
+                            for a in body_nodes(t):
+                                if isinstance(a, ast.Assign) and any(isinstance(tt, ast.Subscript) for tt in a.targets) and isinstance(a.value, ast.Name):
+                                    for dd in common.reaching_defs(ctx, t, a.value.id, a):
+                                        if isinstance(dd, ast.Call) and any(x.qual == t.qual for x in common.targets_of_funcs(ctx, t, dd)):
+                                            rec.append((t, a))
+                if rec:
+                    bulk.append((g, c, rec[0]))
+    if bulk:
+        g, c, (t, a) = bulk[0]
+        return [ctx.viol(R, g, c, f"the collected changes are applied with {canon(c)[:40]}, a shallow update, and for a nested document the collected entry is the sub-mapping returned by the "
+                         f"recursion (`{stmt_key(a, 40)}` in {t.name}): the destination's nested mapping is replaced by it and keys that exist only in the destination are lost")]
     if not loops:
         return [ctx.inc(R, fi, fi.node, "no loop over the source items")]
     lp = loops[0]
@@ -363,7 +387,7 @@ def c14_d(ctx: Ctx):
             allowed |= {f"os.path.isfile({fnm})", f"os.path.exists({fnm})"}
         for pr in proxies:
             allowed |= {f"len({pr})"}
-        extra = sorted(d for d in deps if d not in allowed and not d.startswith(("getattr(", "_DocProxy(", "len(")) and "isfile" in d or "exists(" in d and d not in allowed)
+        extra = sorted(d for d in deps if d not in allowed and not d.startswith(("getattr(", "_DocProxy(", "len(")))
         if extra:
             out.append(ctx.viol(R, fi, branch_if, f"whether the roll-back uses the in-memory copy also depends on {extra[0]}: a non-empty, file-backed document can then be 'backed up' by a deep copy, "
                                 "which is only another handle on the same file - after a conflict the roll-back clears the document and restores nothing", construct=kd))
